@@ -262,9 +262,11 @@ def install_monitors(sim):
             if log[0][1] == 1:
                 base = sim.ctor_members[name]
             elif all(p in sim.G for p in range(2, log[0][1])):
-                init = set('n%d' % i for i in range(sim.cfg['n']))
+                # over the node's constructor set (the committed member list of the moment it was started): replaying
+                # all commands in order over it gives the same set as over the initial cluster, because the last
+                # command that names a node decides whether it is a member
                 below = [m for m in (membership_of(sim.G[p][0]) for p in range(2, log[0][1])) if m is not None]
-                base = fold_members(sim, init, below, name) | {name}
+                base = fold_members(sim, sim.ctor_members[name], below, name) | {name}
                 sim.counters['fold_checked_on_compacted_log'] += 1
             if base is not None:
                 cmds = [m for m in (membership_of(e[0]) for e in log[:]) if m is not None]
